@@ -213,6 +213,17 @@ fn render_test(w: &mut W, out: &mut Rendered, indent: &str, t: &TestSpec, in_cla
             in_func: Some(fname.clone()),
         });
     }
+    for n in &t.defaulted {
+        if all_params.contains(n) || params.iter().any(|p| p == NAMES[*n]) {
+            continue;
+        }
+        if !first {
+            s.push_str(", ");
+        }
+        first = false;
+        s.push_str(&format!("{}=None", NAMES[*n]));
+        params.push(NAMES[*n].to_string());
+    }
     s.push_str("):");
     w.push(s);
     let mut body_last = line + 1;
